@@ -1,9 +1,14 @@
 import NauyacaVerif.Srv.Render
+import NauyacaVerif.Srv.Conn
 
 /-! M-Flow: the response write pump of `GeminiServerProtocol` (`_send_response` / `_pump_response` /
     `pause_writing` / `resume_writing`): the response is cut into pieces (header, then the body in pieces of
     `writeChunk` bytes) which are handed to the transport while it accepts them; the connection is closed
     after the last piece was accepted while the transport was not paused.
+
+    The request timer is part of the model: it is armed when the connection is made, cancelled when the request is
+    decided (`send`: a response exists) or the peer is lost, and when it fires first the timeout response goes through the
+    same pump.  Nothing re-arms it: a response that is being written is never cut off by the clock (`tick_after_send`).
 
     The transport is a parameter: `limit k` says "`pause_writing` will be signalled during the (k+1)-th
     `write` from now" (asyncio signals it synchronously inside `write`); without a limit it never pauses. -/
@@ -35,6 +40,7 @@ structure FSt where
   out : List W := []
   closed : Bool := false
   lost : Bool := false
+  timer : Option Nat := some requestTimeout8   -- the request timer: eighths of a second left (none: cancelled)
   all : List Bytes := []         -- ghost: the pieces handed over by `_send_response`
   done : List Bytes := []        -- ghost: the pieces written so far
 deriving Repr
@@ -59,14 +65,25 @@ inductive FEv where
   | resume                       -- `resume_writing`
   | pause                        -- `pause_writing` outside a write (the transport's buffer filled by itself)
   | lost                         -- `connection_lost`
+  | tick (dt : Nat)              -- `dt` eighths of a second pass on the event loop's clock
 deriving Repr
 
+/-- the only piece of the response `_handle_timeout` sends -/
+def timeoutPieces : List Bytes := pieces ⟨40, strOf "Request timeout", .none⟩
+
 def fstep (s : FSt) : FEv → FSt
-  | .send ps => if s.started || s.lost then s else pump { s with started := true, unsent := ps, all := ps }
+  | .send ps => if s.started || s.lost then s else pump { s with started := true, unsent := ps, all := ps, timer := none }
   | .limit k => { s with budget := some k }
   | .resume => pump { s with paused := false }
   | .pause => { s with paused := true }
-  | .lost => { s with lost := true }
+  | .lost => { s with lost := true, timer := none }
+  | .tick dt =>
+    match s.timer with
+    | none => s
+    | some r =>
+      if dt < r then { s with timer := some (r - dt) }
+      else if s.started || s.lost then { s with timer := none }
+      else pump { s with started := true, unsent := timeoutPieces, all := timeoutPieces, timer := none }
 
 def frun (evs : List FEv) : FSt := evs.foldl fstep {}
 
